@@ -29,6 +29,10 @@ struct Case {
 	crashes: Vec<Crash>,
 	/// operations between the crashes / after the last crash, before the final settle
 	recovery: Vec<Op>,
+	/// before the flow: node 0 sends one payment in two parts over the two parallel channels of a
+	/// Line3Parallel world (amounts in msat), and everything is pumped until the recipient holds it
+	#[serde(default)]
+	mpp: Option<(u64, u64)>,
 }
 
 fn weights() -> OpWeights {
@@ -53,7 +57,7 @@ fn strat(max_ops: usize) -> impl Strategy<Value = Case> {
 		proptest::collection::vec(crash_strat(), 1..3),
 		proptest::collection::vec(op_strategy(recovery_weights()), 0..12),
 	)
-		.prop_map(|(spec, flow, snap_bits, crashes, recovery)| Case { spec, flow, snap_bits, crashes, recovery })
+		.prop_map(|(spec, flow, snap_bits, crashes, recovery)| Case { spec, flow, snap_bits, crashes, recovery, mpp: None })
 }
 
 /// Crashes inside a two-sided update dance: a few non-dust payments are fully committed and become claimable,
@@ -93,7 +97,55 @@ fn crossing_strat() -> impl Strategy<Value = Case> {
 					Crash { after, node, snap, landed }
 				})
 				.collect();
-			Case { spec, flow, snap_bits, crashes, recovery }
+			Case { spec, flow, snap_bits, crashes, recovery, mpp: None }
+		})
+}
+
+/// A two-part payment over two channels from the same peer is held by the recipient; the recipient's persistence
+/// goes asynchronous, it claims, and a generated tail completes single writes, delivers single messages and adds
+/// further traffic; the recipient crashes inside that tail with a generated snapshot lag (often a snapshot
+/// written before the claim) and in-flight writes lost or landed.
+fn mpp_strat() -> impl Strategy<Value = Case> {
+	let tail_w = OpWeights { send: 14, claim: 10, deliver: 50, events: 14, forwards: 8, complete: 4, pump: 6, ..OpWeights::zero() };
+	(
+		world_spec(vec![Topology::Line3Parallel]),
+		// each part needs more than half of what one of the parallel channels can carry, so the forwarder has
+		// to use both channels
+		(80_000_000u64..125_000_000, 80_000_000u64..125_000_000),
+		proptest::collection::vec(op_strategy(tail_w), 6..40),
+		prop_oneof![Just(0.15f64), Just(0.4), Just(0.7)].prop_flat_map(|p| proptest::collection::vec(proptest::bool::weighted(p), 7)),
+		proptest::collection::vec((any::<u16>(), proptest::bool::weighted(0.8), 0u16..5, proptest::bool::weighted(0.35)), 1..3),
+		proptest::collection::vec(op_strategy(recovery_weights()), 0..10),
+		any::<u16>(),
+	)
+		.prop_map(|(mut spec, mpp, tail, snap_bits, crashes, recovery, pay)| {
+			spec.value_sat = vec![300_000];
+			spec.push_permille = vec![50, 500, 500];
+			spec.reserve_ppm = spec.reserve_ppm.min(10_000);
+			spec.inflight_pct = 100;
+			spec.dust_exposure_fixed_msat = None;
+			// the recipient (node 2) persists asynchronously on both channels, then claims
+			// (one of its two channels, sometimes both: a write of the other channel then completes at once)
+			let mut flow = vec![Op::Async { node: 65535, chan: if pay & 1 == 0 { 0 } else { 65535 }, on: true }];
+			if pay % 3 == 0 {
+				flow.push(Op::Async { node: 65535, chan: if pay & 1 == 0 { 65535 } else { 0 }, on: true });
+			}
+			flow.push(Op::Events { node: 65535 });
+			flow.push(Op::Claim { pay });
+			let head = flow.len();
+			flow.extend(tail);
+			let len = flow.len();
+			let crashes = crashes
+				.into_iter()
+				.map(|(pos, recipient, lag, landed)| {
+					let at = head + pick(pos, len - head + 1);
+					let after = ((((at as u32) << 16) / (len as u32 + 1)) + 1).min(65535) as u16;
+					let k = (at / 2 + 2) as u32;
+					let snap = (((lag as u32).min(k - 1) << 16) / k + 1).min(65535) as u16;
+					Crash { after, node: if recipient { 65535 } else { pos }, snap, landed }
+				})
+				.collect();
+			Case { spec, flow, snap_bits, crashes, recovery, mpp: Some(mpp) }
 		})
 }
 
@@ -115,7 +167,7 @@ fn oracle(c: &Case, ctx: &mut Ctx) -> CaseResult {
 			}
 		},
 	};
-	if ctx.replay && r.is_err() {
+	if ctx.replay && (r.is_err() || std::env::var("VERIF_C10_TRACE").is_ok()) {
 		println!("==== history ====\n{}", dump_history(&sim));
 	}
 	r
@@ -136,6 +188,18 @@ fn oracle_inner(c: &Case, ctx: &mut Ctx, sim: &mut Sim) -> CaseResult {
 	let mut ro = RevokeOracle::new(sim);
 	let mut so = RestartOracle::new(sim);
 	let mut keys = initial_keys_map(sim);
+	if let Some((a1, a2)) = c.mpp {
+		if sim.c03_send_explicit(&[(vec![0, 1], a1), (vec![0, 2], a2)], 0).is_none() {
+			ctx.discard();
+			return Ok(());
+		}
+		for _ in 0..3 {
+			apply(sim, &c.spec, &Op::Pump);
+		}
+		so.step(sim)?;
+		ro.step(sim, &mut keys)?;
+		ctx.label_if(sim.pays.iter().any(|p| p.claimable_seen), "mpp-claimable-at-recipient");
+	}
 	for i in 0..n {
 		sim.snapshot_manager(i);
 		so.note_snapshot(sim, i);
@@ -238,6 +302,7 @@ fn oracle_inner(c: &Case, ctx: &mut Ctx, sim: &mut Sim) -> CaseResult {
 	ctx.label_if(mined > 0, "on-chain-resolution");
 	ctx.label_if(st.claimed_then_sent > 0, "claim-replayed-to-sender");
 	ctx.label_if(st.dust_forfeited_after_stale_restart > 0, "dust-htlc-forfeited-after-stale-restart");
+	ctx.label_if(st.parts_checked > 1, "multi-part-collection-checked");
 	ctx.label_if(st.htlcs_pending_at_crash > 0, "htlcs-pending-at-crash");
 	ctx.label(match c.spec.topo {
 		Topology::Pair => "topo:pair",
@@ -269,7 +334,7 @@ fn enumerated_cases(seed: u64, flows: usize) -> Vec<Case> {
 					// `pick` maps (x * len) >> 16: choose x so that it lands exactly on pos / node
 					let after = (((pos as u32) << 16) / (flow.len() as u32 + 1) + 1).min(65535) as u16;
 					let nodesel = ((((node as u32) << 16) / n as u32) + 1).min(65535) as u16;
-					out.push(Case { spec: spec.clone(), flow: flow.clone(), snap_bits: snap_bits.clone(), crashes: vec![Crash { after, node: nodesel, snap: if snap == 0 { 0 } else { 40000 }, landed }], recovery: vec![] });
+					out.push(Case { spec: spec.clone(), flow: flow.clone(), snap_bits: snap_bits.clone(), crashes: vec![Crash { after, node: nodesel, snap: if snap == 0 { 0 } else { 40000 }, landed }], recovery: vec![], mpp: None });
 				}
 			}
 		}
@@ -303,6 +368,17 @@ fn main() {
 			max_shrink: 300,
 		},
 		crossing_strat,
+		oracle,
+	);
+	c.part_with(
+		PartSpec {
+			name: "restart-mpp",
+			rule: "Line3Parallel world: a two-part payment over two channels from the same peer is claimed by a recipient whose persistence is asynchronous; generated tail of single write completions / message deliveries / further traffic; 1-2 crashes (mostly of the recipient) inside the tail with a manager snapshot lagging 0-4 snapshots and in-flight writes lost or landed. Same oracles as restart-sampled plus: a payment reported as claimed is collected in full (every non-dust part fulfilled by message or taken on chain with the preimage). Non-trivial as in restart-sampled",
+			quick_cases: 500,
+			thorough_cases: 25_000,
+			max_shrink: 300,
+		},
+		mpp_strat,
 		oracle,
 	);
 	let flows = if c.tier() == Tier::Thorough { 300 } else { 3 };
